@@ -6,6 +6,15 @@ def main(argv):
     pid, fin, fout = argv
     logging.disable(logging.CRITICAL)
     warnings.simplefilter('ignore')
+    cov = None
+    if os.environ.get('VERIF_COV'):
+        # reach diagnostic only (tools/reach.sh): which lines of the library the workload executes
+        import coverage
+        os.makedirs(os.environ['VERIF_COV'], exist_ok=True)
+        cov = coverage.Coverage(data_file=os.path.join(os.environ['VERIF_COV'], '%s.%d' % (pid, os.getpid())),
+                                include=[os.path.join(os.path.realpath(os.environ.get('VERIF_REPO', '/repo')),
+                                                      'pylatexenc', '*')])
+        cov.start()
     import pylatexenc
     repo = os.path.realpath(os.environ.get('VERIF_REPO', '/repo'))
     where = os.path.realpath(pylatexenc.__file__)
@@ -23,6 +32,9 @@ def main(argv):
     except BaseException:
         sys.stderr.write(traceback.format_exc())
         rc = 4
+    if cov is not None:
+        cov.stop()
+        cov.save()
     with open(fout, 'w') as f:
         json.dump(rec.dump(), f, default=repr)
     return rc
